@@ -529,6 +529,37 @@ func checkDeterminism(c *stepCtx, op J, res any) bool {
 			break
 		}
 	}
+	// node-local settings (verbose logging, telemetry channels) are not part of the consensus inputs: a node
+	// that has them switched the other way must compute the same bytes
+	if cfg := jObj(op["cfg"]); cfg != nil {
+		for _, variant := range []string{"verbose", "telemetry"} {
+			cp := J{}
+			for k, v := range op {
+				cp[k] = v
+			}
+			if variant == "verbose" {
+				c2 := J{}
+				for k, v := range cfg {
+					c2[k] = v
+				}
+				c2["verbose"] = !jBool(cfg["verbose"])
+				cp["cfg"] = c2
+			} else {
+				cp["telemetry"] = !jBool(op["telemetry"])
+			}
+			got := func() (s string) {
+				defer func() {
+					if r := recover(); r != nil {
+						s = "panic"
+					}
+				}()
+				return rawBytesOf(normalise(runOp(cp)))
+			}()
+			if got != want {
+				c.bad("node-local-setting-changes-result", "the same input gives different bytes on a node with "+variant+" switched the other way")
+			}
+		}
+	}
 	return want != ""
 }
 
